@@ -151,6 +151,8 @@ def run_case(case):
     nc, nm = shape
     n = nc * nm
     reg, origins, mags = fixtures.grid_setup(nc, nm)
+    if case['kind'] == 'lseq':
+        case = dict(case, kind='sims_lseq_only')
     if case['kind'] in ('pairs', 'single'):
         if case['kind'] == 'single':
             rate_list, count_list = [case['rates']], [case['counts']]
@@ -177,10 +179,37 @@ def run_case(case):
                 break
         sample = dict(shape=list(shape), rates=rate_list[0], counts=count_list[min(5, len(count_list) - 1)])
     else:  # sims: every tuple of draws for N_obs <= 2
+        from csep.core import poisson_evaluations as pe
+        from mc.checks.c06 import Spy
+        # L-test with SEVERAL simulations in one call: Poisson answers alternate non-empty / empty catalogs (2,0,1,0,3,0)
+        for rates in case['rates']:
+            fc = fixtures.gridded_forecast(numpy.array(rates, dtype=float).reshape(nc, nm), reg, mags)
+            pos0 = [i for i, r in enumerate(rates) if r > 0][0]
+            counts = [1 if i == pos0 else 0 for i in range(n)]
+            cat = fixtures.catalog(fixtures.events_from_counts(numpy.array(counts).reshape(nc, nm), origins, mags), region=reg)
+            mids = rs.midpoints(rates)
+            answers = [2, 0, 1, 0, 3, 0]
+            draws = [mids[i % len(mids)] for i in range(sum(answers))]
+            rep = dict(kind='lseq', shape=list(shape), rates=[list(rates)])
+            try:
+                with env.scripted_random(env.Script(uniforms=draws, poissons=answers)), Spy(pe) as spy:
+                    res = pe.likelihood_test(fc, cat, num_simulations=len(answers))
+                evals += len(answers)
+                td = [float(x) for x in res.test_distribution]
+                for a, call, entry in zip(answers, spy.calls, td):
+                    sim = [int(x) for x in call['out']]
+                    want, mag = ref_value([float(x) for x in rates], sim, float(sum(rates)))
+                    if sum(sim) != a or not same(entry, want, mag):
+                        failures.append(Fail('poisson_evaluations.L-test|test-distribution-entry-differs-from-statistic-of-simulated-catalog|sequence-with-empty-simulations',
+                                             f'Poisson answers {answers}: simulation with {a} events recorded as {sim}, entry {entry!r}, statistic of a catalog with {a} events placed by the draws is {want!r} (rates {rates})', rep))
+                        break
+            except Exception as e:
+                failures.append(Fail(f'poisson_evaluations.L-test|{type(e).__name__}|sequence-with-empty-simulations', f'{type(e).__name__}: {e} rates={rates}', rep))
+
         def all_draws(vr, nobs):
             U = rs.draw_alphabet(vr)
             return [list(t) for t in itertools.product(U, repeat=nobs)]
-        for rates in case['rates']:
+        for rates in ([] if case['kind'] == 'sims_lseq_only' else case['rates']):
             fc = fixtures.gridded_forecast(numpy.array(rates, dtype=float).reshape(nc, nm), reg, mags)
             pos = [i for i, r in enumerate(rates) if r > 0]
             for counts in ([0] * n, [1 if i == pos[0] else 0 for i in range(n)], [2 if i == pos[0] else 0 for i in range(n)],
